@@ -181,7 +181,11 @@ def check(prog, run):
         # direct constructors: wrong prefix / missing binding refused before open
         for b, (home, flag, cname, good) in BINDINGS.items():
             cls = p2.cls(home, cname)
-            for dev in (good, "bogus://x"):
+            # the path a transport handles is "/dev/..." / "iscsi://...": pieces of the prefix, the other transport's prefix, the
+            # prefix elsewhere in the string and the empty string are not
+            near = {"sgio": ["/dev", "dev/", "/de", "/", "", "ev/", "/devx/sg1", "x/dev/sg1", "iscsi://h/t/0", "/DEV/sg1"],
+                    "iscsi": ["iscsi:/", "iscsi:", "iscsi", "scsi://h/t/0", "://", "", "/dev/sg1", "xiscsi://h/t/0", "ISCSI://h/t/0"]}[b]
+            for dev in [good, "bogus://x"] + near:
                 si = StandIn(p2).install()
                 try:
                     ps = I2.explore(lambda dev=dev: I2.instantiate(cls, [dev], {}, None, _F()), max_paths=32)
